@@ -46,6 +46,8 @@ def main(argv=None) -> int:
                 print(f"ANALYSIS-ERROR property={pid} {e} (after the findings above)")
                 return rc if rc else 2
             raise
+        if args.tier == "thorough" and not os.environ.get("VERIF_NO_SELFVALIDATION"):
+            _self_validation(ctx, pid, args.repo)
         rc = finish(ctx, args.evidence_dir)
         if args.replay:
             _replay(ctx, args.replay, program)
@@ -57,6 +59,31 @@ def main(argv=None) -> int:
         traceback.print_exc()
         print(f"ANALYSIS-ERROR property={pid} internal error (traceback above)")
         return 2
+
+
+def _self_validation(ctx: Ctx, pid: str, repo: str) -> None:
+    """Thorough tier: re-run the rule on every self-validation variant of this property (one
+    instance broken / neutral edit, applied in memory) and record kills in the evidence.  Never
+    changes the exit code: a variant that no longer applies to an edited tree is `skipped`."""
+    try:
+        os.environ["VERIF_REPO"] = repo
+        from selftest import run as st
+        import importlib
+        importlib.reload(st)
+        from concurrent.futures import ProcessPoolExecutor
+        vs = st.all_variants([pid])
+        if not vs:
+            return
+        with ProcessPoolExecutor(max_workers=min(16, os.cpu_count() or 1)) as ex:
+            results = list(ex.map(st.run_variant, vs))
+        tally = {}
+        for (_vid, _p, status, _info) in results:
+            tally[status] = tally.get(status, 0) + 1
+        ctx.note("self_validation", {"variants": len(results), "tally": tally,
+                                     "not_ok": [f"{v}:{s}:{i[:120]}" for (v, _p, s, i) in results if s.startswith(("MISSED", "FALSE"))]})
+        print(f"{pid} self-validation: {len(results)} variants " + " ".join(f"{k}={v}" for k, v in sorted(tally.items())))
+    except Exception as e:  # noqa: BLE001
+        ctx.note("self_validation", {"error": str(e)[:200]})
 
 
 def _replay(ctx: Ctx, path: str, program: Program) -> None:
